@@ -560,33 +560,56 @@ fn encode_side(p: PDU) {
     forget(e);
     forget(hb);
 }
-fn encode_side_cases(crc: CRCFlag, flag: FileSizeFlag) {
-    let ack = Operations::Ack(PositiveAcknowledgePDU {
-        directive: PDUDirective::Finished,
-        directive_subtype_code: ACKSubDirective::Finished,
-        condition: condition(),
-        transaction_status: tx_status(),
-    });
-    encode_side(whole(PDUPayload::Directive(ack), crc, flag));
-    encode_side(whole(PDUPayload::Directive(Operations::KeepAlive(KeepAlivePDU { progress: fsv(flag) })), crc, flag));
-    encode_side(whole(
-        PDUPayload::FileData(FileDataPDU::Unsegmented(UnsegmentedFileData { offset: fsv(flag), file_data: bytes(2) })),
-        crc,
-        flag,
-    ));
+/// S9: the CRC value is irrelevant to the encode-side obligations (lengths, header prefix) and its bit loop over
+/// symbolic octets costs > 12 GB: any 16-bit value stands in for it (over-approximation; C05 only)
+pub fn crc_any_stub(_message: &[u8]) -> u16 {
+    kani::any()
 }
-//# funcs=PDU::encode,PDU::encoded_len,PDUHeader::encode,crc16_ibm_3740; bound=ACK / KeepAlive / file data (2 bytes) payloads, id widths (1,8), CRC on, small flag; stubs=S3,S7
-h!(#[kani::stub(cfdp_core::pdu::PDUPayload::encode, payload_encode_stub)] c05_q_pdu_encode_side_crc, 40, {
-    widths(&[(1u8, 8u8)], || encode_side_cases(CRCFlag::Present, FileSizeFlag::Small));
+fn encode_side_cases(crc: CRCFlag, flag: FileSizeFlag, kinds: u8) {
+    if kinds & 1 != 0 {
+        let ack = Operations::Ack(PositiveAcknowledgePDU {
+            directive: PDUDirective::Finished,
+            directive_subtype_code: ACKSubDirective::Finished,
+            condition: condition(),
+            transaction_status: tx_status(),
+        });
+        encode_side(whole(PDUPayload::Directive(ack), crc, flag));
+    }
+    if kinds & 2 != 0 {
+        encode_side(whole(PDUPayload::Directive(Operations::KeepAlive(KeepAlivePDU { progress: fsv(flag) })), crc, flag));
+    }
+    if kinds & 4 != 0 {
+        encode_side(whole(
+            PDUPayload::FileData(FileDataPDU::Unsegmented(UnsegmentedFileData { offset: fsv(flag), file_data: bytes(2) })),
+            crc,
+            flag,
+        ));
+    }
+}
+//# funcs=PDU::encode,PDU::encoded_len,PDUHeader::encode,crc16_ibm_3740; bound=ACK payload, id widths (1,1), CRC on (real CRC routine), small flag; stubs=S3,S7
+h!(#[kani::stub(cfdp_core::pdu::PDUPayload::encode, payload_encode_stub)] c05_q_pdu_encode_side_crc_ack, 40, {
+    widths(&[(1u8, 1u8)], || encode_side_cases(CRCFlag::Present, FileSizeFlag::Small, 1));
+});
+//# funcs=PDU::encode,PDU::encoded_len,PDUHeader::encode; bound=ACK / KeepAlive / file data (2 bytes) payloads, id widths (1,8), CRC on with the CRC value abstracted to any u16 (S9), small flag; stubs=S3,S7,S9
+h!(#[kani::stub(cfdp_core::pdu::PDUPayload::encode, payload_encode_stub)] #[kani::stub(cfdp_core::pdu::crc16_ibm_3740, crate::c05::crc_any_stub)] c05_q_pdu_encode_side_crc_any, 40, {
+    widths(&[(1u8, 8u8)], || encode_side_cases(CRCFlag::Present, FileSizeFlag::Small, 7));
+});
+//# funcs=PDU::encode,PDU::encoded_len,PDUHeader::encode,crc16_ibm_3740; bound=file data payload (2 bytes), id widths (1,1), CRC on (real CRC routine; 317 s / 12.7 GB alone); stubs=S3,S7
+h!(#[kani::stub(cfdp_core::pdu::PDUPayload::encode, payload_encode_stub)] c05_t_pdu_encode_side_crc_filedata, 40, {
+    widths(&[(1u8, 1u8)], || encode_side_cases(CRCFlag::Present, FileSizeFlag::Small, 4));
 });
 //# funcs=PDU::encode,PDU::encoded_len,PDUHeader::encode; bound=ACK / KeepAlive / file data (2 bytes) payloads, id widths (1,8), CRC off, large flag; stubs=S3,S7
 h!(#[kani::stub(cfdp_core::pdu::PDUPayload::encode, payload_encode_stub)] c05_q_pdu_encode_side_nocrc, 40, {
-    widths(&[(1u8, 8u8)], || encode_side_cases(CRCFlag::NotPresent, FileSizeFlag::Large));
+    widths(&[(1u8, 8u8)], || encode_side_cases(CRCFlag::NotPresent, FileSizeFlag::Large, 7));
+});
+//# funcs=PDU::encode,PDU::encoded_len,PDUHeader::encode,crc16_ibm_3740; bound=ACK / KeepAlive / file data payloads, id widths (1,8), CRC on (12 GB were not enough in the quick tier); stubs=S3,S7
+h!(#[kani::stub(cfdp_core::pdu::PDUPayload::encode, payload_encode_stub)] c05_t_pdu_encode_side_crc_wide, 40, {
+    widths(&[(1u8, 8u8)], || encode_side_cases(CRCFlag::Present, FileSizeFlag::Small, 7));
 });
 //# funcs=PDU::encode,PDU::encoded_len,PDUHeader::encode,crc16_ibm_3740; bound=as above, id widths (8,2), CRC on+small and CRC off+large; stubs=S3,S7
 h!(#[kani::stub(cfdp_core::pdu::PDUPayload::encode, payload_encode_stub)] c05_t_pdu_encode_side_wide, 40, {
     widths(&[(8u8, 2u8)], || {
-        encode_side_cases(CRCFlag::Present, FileSizeFlag::Small);
-        encode_side_cases(CRCFlag::NotPresent, FileSizeFlag::Large);
+        encode_side_cases(CRCFlag::Present, FileSizeFlag::Small, 7);
+        encode_side_cases(CRCFlag::NotPresent, FileSizeFlag::Large, 7);
     });
 });
